@@ -444,14 +444,28 @@ def run_scope(rep, name, bound, cases, run_case, procs=None, chunk=64, exhaustiv
     sc = rep.scope(name, bound)
     _RUN_CASE = run_case
     procs = procs or min(16, os.cpu_count() or 1)
-    ch = list(_chunks(cases, chunk))
-    if procs > 1 and len(ch) > 1:
+    # cases are streamed: at most a few chunks per worker exist at any time (thorough scopes have millions of cases)
+    chunks = _chunks(cases, chunk)
+    first = list(itertools.islice(chunks, 2))
+    if procs > 1 and len(first) > 1:
+        import threading
+        sem = threading.BoundedSemaphore(procs * 4)
+
+        def feed():
+            for c in itertools.chain(first, chunks):
+                sem.acquire()
+                yield c
+
+        def drain(pool):
+            for r in pool.imap_unordered(_worker, feed()):
+                sem.release()
+                yield r
         ctx = mp.get_context('fork')
-        with ctx.Pool(procs) as pool:
-            results = pool.imap_unordered(_worker, ch)
-            results = list(results)
+        pool = ctx.Pool(procs)
+        results = drain(pool)
     else:
-        results = [_worker(c) for c in ch]
+        pool = None
+        results = (_worker(c) for c in itertools.chain(first, chunks))
     nerr = 0
     for r in results:
         sc.evaluations += r['n']
@@ -468,6 +482,9 @@ def run_scope(rep, name, bound, cases, run_case, procs=None, chunk=64, exhaustiv
             if nerr <= 3:
                 rep.error('harness crash in scope %s on case %r: %s' % (name, case, tb.strip().splitlines()[-1]))
                 sys.stderr.write(tb)
+    if pool is not None:
+        pool.close()
+        pool.join()
     sc.done(exhaustive)
     return sc
 
